@@ -285,6 +285,12 @@ func mutations(mat *g.Material, fl string) []mutation {
 			m.Items[0].Ident = strings.Repeat("ab", 300)
 		}
 	})
+	add("identity-repeated-resigned", func(m *g.Msg) {
+		// the same identity preimage twice (non-decreasing, not strictly increasing), signatures made afterwards
+		if len(m.Items) > 1 {
+			m.Items[1] = m.Items[0]
+		}
+	})
 	add("order-swapped", func(m *g.Msg) {
 		if len(m.Items) > 1 {
 			m.Items[0], m.Items[1] = m.Items[1], m.Items[0]
@@ -553,7 +559,9 @@ func (r *runner) structCases(emit func(*caseJ)) {
 			topic := topicOf(base)
 			for _, mu := range muts {
 				m := base.Clone()
-				m.Fill()
+				if !strings.HasSuffix(mu.name, "-resigned") {
+					m.Fill() // signatures are over the unmutated message
+				}
 				mu.f(m)
 				emit(&caseJ{Kind: "bytes", Flavour: fl, State: sts[0], RegTopic: topic, MsgTopic: topic, Data: hex.EncodeToString(encodeMsg(r.mat, m)),
 					Raw: true, Origin: "struct:" + fl + ":" + base.Type + ":" + mu.name})
